@@ -274,19 +274,21 @@ def skipPhase (p : Phase) (sub : Option Nat) (st : St) : St :=
 
 def setLast (st : St) (r : Res) : St := { st with last := st.last <|> some r }
 
+/-- `TestExecutor._execute_phase` for a phase that is not skipped: the invocation loop, then
+    stop_on_first_failure, then the terminal / FAIL_SUBTEST bookkeeping -/
+def runPhase (cfg : Cfg) (p : Phase) (sub : Option Nat) (st : St) : St × Ret :=
+  let r := executePhase cfg p sub st
+  let stopNow := cfg.stopOnFirstFailure &&
+    (match r.1.phases.getLast? with | some rec_ => rec_.outcome == .fail | none => false)
+  let outcome : Res := if stopNow then .pr .stop else r.2
+  if outcome.isTerminal then (setLast r.1 outcome, .term)
+  else if outcome == .pr .failSub then ({ r.1 with subFail := true }, .cont)
+  else (r.1, .cont)
+
 /-- `TestExecutor._execute_phase` -/
 def execPhaseNode (cfg : Cfg) (p : Phase) (sub : Option Nat) (td : Bool) (st : St) : St × Ret :=
   if !td && sub.isSome && st.subFail then (skipPhase p sub st, .cont)
-  else
-    let r := executePhase cfg p sub st
-    let st := r.1
-    let outcome : Res :=
-      if cfg.stopOnFirstFailure &&
-         (match st.phases.getLast? with | some rec_ => rec_.outcome == .fail | none => false)
-      then .pr .stop else r.2
-    if outcome.isTerminal then (setLast st outcome, .term)
-    else if outcome == .pr .failSub then ({ st with subFail := true }, .cont)
-    else (st, .cont)
+  else runPhase cfg p sub st
 
 def condCheck (c : DiagCond) (store : List Nat) : Bool :=
   let has := c.results.map (fun d => store.contains d)
@@ -316,16 +318,19 @@ def checkpointResult (c : Ckpt) (sub : Option Nat) (st : St) : Res :=
   | some true =>
     if c.failSubtest then (if sub.isSome then .pr .failSub else .exc false) else .pr .stop
 
+/-- a checkpoint that is not skipped: evaluated once, recorded once, acts as a failed phase if triggered -/
+def evalCheckpoint (c : Ckpt) (sub : Option Nat) (st : St) : St × Ret :=
+  let r := checkpointResult c sub st
+  let st := { st with checkpoints := st.checkpoints ++ [(c.id, sub, r)] }
+  if r.isTerminal then (setLast st r, .term)
+  else if r == .pr .failSub then ({ st with subFail := true }, .cont)
+  else (st, .cont)
+
 /-- `TestExecutor._execute_checkpoint` -/
 def execCheckpoint (c : Ckpt) (sub : Option Nat) (td : Bool) (st : St) : St × Ret :=
   if !td && sub.isSome && st.subFail then
     ({ st with checkpoints := st.checkpoints ++ [(c.id, sub, .pr .skip)] }, .cont)
-  else
-    let r := checkpointResult c sub st
-    let st := { st with checkpoints := st.checkpoints ++ [(c.id, sub, r)] }
-    if r.isTerminal then (setLast st r, .term)
-    else if r == .pr .failSub then ({ st with subFail := true }, .cont)
-    else (st, .cont)
+  else evalCheckpoint c sub st
 
 mutual
 /-- `_execute_node` -/
